@@ -242,3 +242,40 @@ impl utils::verif::Hooks for ThreadHooks {
         Some(self.sched.rand() as usize)
     }
 }
+
+/// Drives a simulated thread's future on that thread's own runtime: whenever the future is pending the thread hands
+/// control to the scheduler and asks to be polled again. Resolves to None when the scheduler found that nobody can
+/// make progress any more.
+pub struct SchedStepper<F> {
+    inner: std::pin::Pin<Box<F>>,
+    sched: Arc<Sched>,
+    tid: usize,
+    pending: Arc<std::sync::atomic::AtomicU64>,
+}
+
+impl<F: std::future::Future> SchedStepper<F> {
+    pub fn new(f: F, sched: Arc<Sched>, tid: usize) -> Self {
+        SchedStepper { inner: Box::pin(f), sched, tid, pending: Arc::new(std::sync::atomic::AtomicU64::new(0)) }
+    }
+    /// number of times the future was found pending (a lock held elsewhere, a result not there yet)
+    pub fn pending_counter(&self) -> Arc<std::sync::atomic::AtomicU64> {
+        self.pending.clone()
+    }
+}
+
+impl<F: std::future::Future> std::future::Future for SchedStepper<F> {
+    type Output = Option<F::Output>;
+    fn poll(mut self: std::pin::Pin<&mut Self>, cx: &mut std::task::Context<'_>) -> std::task::Poll<Self::Output> {
+        match self.inner.as_mut().poll(cx) {
+            std::task::Poll::Ready(v) => std::task::Poll::Ready(Some(v)),
+            std::task::Poll::Pending => {
+                self.pending.fetch_add(1, std::sync::atomic::Ordering::SeqCst);
+                if self.sched.blocked(self.tid) {
+                    return std::task::Poll::Ready(None);
+                }
+                cx.waker().wake_by_ref();
+                std::task::Poll::Pending
+            },
+        }
+    }
+}
